@@ -8,6 +8,7 @@
     reference rewriting (no schedule, clock or fault in it; reported apart)."""
 import linecache
 import re
+import zlib
 import traceback
 
 from ._prog import ProgProp
@@ -101,10 +102,16 @@ class C18(ProgProp):
                   "catch": rng.choice([None, None, None, "bare", "same", "await_then_reraise"]), "siblings": rng.randint(0, 2) if rng.random() < 0.3 else 0,
                   "sib_first": rng.random() < 0.5, "container": rng.choice(["t", "l", "d"])}
             levels.append(lv)
-        return {"kind": "tb", "depth": d, "levels": levels, "raise_after": rng.randint(0, 2),
+        case = {"kind": "tb", "depth": d, "levels": levels, "raise_after": rng.randint(0, 2),
                 "swallow_at": rng.randint(0, d - 2) if rng.random() < 0.25 else None,
                 "swallow_then": rng.choice(["yield", "value"]), "base_exc": rng.random() < 0.2,
                 "stack_at": rng.randint(0, d - 1), "conv": rng.choice(["call", "value"])}
+        # one traceback program in four: the failure is not raised by user code but is the
+        # AssertionError of a request a flush left unanswered, and a second, unrelated chain awaits
+        # another request the same flush forgot (decided by a digest: generator stream unchanged)
+        if zlib.crc32(repr(sorted(case.items())).encode()) % 4 == 0:
+            case["unset_pair"] = True
+        return case
 
     def sample(self, case, r):
         if case["kind"] == "probe":
@@ -147,9 +154,11 @@ class C18(ProgProp):
 
     def _run_tb(self, case):
         real.reset_world()
-        spec = {"templates": [{"kind": "fn", "steps": []}], "root": {"tmpl": 0}, "kinds": 2, "svs": 1, "faults": {}, "prio": {}}
+        spec = {"templates": [{"kind": "fn", "steps": []}], "root": {"tmpl": 0}, "kinds": 2, "svs": 1, "prio": {},
+                "faults": {"items": {"0:forgotten": "unset", "1:forgotten": "unset"}}}
         B = real.RealBackend(spec, ())
         B.setup()
+        unset_pair = bool(case.get("unset_pair"))
         d = max(2, int(case.get("depth", 2)))
         levels = (case.get("levels") or [])[:d]
         while len(levels) < d:
@@ -163,8 +172,14 @@ class C18(ProgProp):
             nitem[0] += 1
             return real.SimItem(B.current[nitem[0] % 2], "tb.i%d" % nitem[0], "k", B)
 
+        def forgotten_item():
+            nitem[0] += 1
+            return real.SimItem(B.current[0], "tb.u%d" % nitem[0], "forgotten", B)
+
         # the failure is an ordinary Exception or a user-defined BaseException subclass
         Boom = type("Boom", ((BaseException,) if case.get("base_exc") else (Exception,)), {})
+        if unset_pair:
+            Boom = AssertionError
         src = []
         src.append("@A.asynq()\ndef sibling(n):\n    for _ in range(n):\n        yield item()\n    return n\n")
         src.append("@A.asynq()\ndef swallower(fut):\n    try:\n        yield fut\n    except Boom:\n        pass\n    return 'swallowed'\n")
@@ -178,8 +193,11 @@ class C18(ProgProp):
             if i == d - 1:
                 for _ in range(int(case.get("raise_after", 0))):
                     body.append("    yield item()")
-                body.append("    raise Boom('bottom')")
-                body.append("    yield")
+                if unset_pair:
+                    body.append("    yield forgotten_item()")
+                else:
+                    body.append("    raise Boom('bottom')")
+                    body.append("    yield")
             else:
                 ind = "    "
                 if lv.get("catch"):
@@ -218,18 +236,22 @@ class C18(ProgProp):
                     body += ["    except Boom as e:", "        raise e"]
                 body.append("    return v")
             src.append("\n".join(body) + "\n")
+        src.append("@A.asynq()\ndef side_1():\n    v = yield forgotten_item()\n    return v\n")
+        src.append("@A.asynq()\ndef side_0():\n    v = yield side_1.asynq()\n    return v\n")
+        src.append("@A.asynq()\ndef top():\n    v = yield (lvl_0.asynq(), side_0.asynq())\n    return v\n")
         text = "\n".join(src)
         fname = "<simq-c18-%d>" % (hash(text) & 0xffffff)
         linecache.cache[fname] = (len(text), None, text.splitlines(True), fname)
-        g = {"A": A, "item": item, "Boom": Boom, "stacks": stacks, "adebug": adebug}
+        g = {"A": A, "item": item, "Boom": Boom, "stacks": stacks, "adebug": adebug, "forgotten_item": forgotten_item}
         exec(compile(text, fname, "exec"), g)
         out = []
         err = None
         try:
+            entry = g["top"] if unset_pair else g["lvl_0"]
             if case.get("conv") == "value":
-                g["lvl_0"].asynq().value()
+                entry.asynq().value()
             else:
-                g["lvl_0"]()
+                entry()
             out.append(("tb-no-error", "the chain did not raise"))
         except Boom as e:
             err = e
@@ -239,15 +261,15 @@ class C18(ProgProp):
         except BaseException as e:
             out.append(("tb-wrong-error", "chain raised %s: %s" % (type(e).__name__, str(e)[:100])))
         if err is not None:
-            user = [n for n in names if re.match(r"^(lvl_\d+|sibling|swallower)$", n)]
+            user = [n for n in names if re.match(r"^(lvl_\d+|sibling|swallower|side_\d|top)$", n)]
             collapsed = [n for j, n in enumerate(user) if j == 0 or user[j - 1] != n]
-            want = ["lvl_%d" % i for i in range(d)]
+            want = (["top"] if unset_pair else []) + ["lvl_%d" % i for i in range(d)]
             if collapsed != want:
                 out.append(("glued-traceback", "traceback of the exception that crossed %d task levels has user frames %r, expected one per level in call order %r (levels %s, swallow_at %s)"
                             % (d, collapsed, want, [(l.get("how"), l.get("catch")) for l in levels], swallow_at)))
             try:
                 txt = adebug.format_error(err)
-                if not isinstance(txt, str) or "Boom" not in txt:
+                if not isinstance(txt, str) or Boom.__name__ not in txt:
                     out.append(("format-error", "format_error() of the escaped exception returned %r" % (txt if not isinstance(txt, str) else txt[-80:])))
                 fe2 = adebug.format_error(Boom("no traceback at all"))
                 if not isinstance(fe2, str):
@@ -304,6 +326,8 @@ class C18(ProgProp):
         st = stacks.get(stack_at)
         if st is not None and not out:
             got = []
+            if unset_pair and st and "top" in st[0]:
+                st = st[1:]  # (the entry of the extra top-level task)
             for entry in st:
                 m = re.search(r"lvl_(\d+)", entry)
                 got.append("lvl_%s" % m.group(1) if m else entry[:30])
